@@ -20,6 +20,15 @@ Papr(e) == IF e.raised THEN Chk(FALSE, "constraint_raised") ELSE
 Composite(e) == IF e.raised THEN Chk(FALSE, "constraint_raised") ELSE
                 /\ Chk(e.order = [i \in 1..Len(e.declared) |-> e.declared[i]], "parts_applied_once_each_in_declared_order")
                 /\ Chk(e.diff_ppm <= 5, "composite_equals_sequential_application")
+                /\ Chk(e.chain_ppm <= 5, "constraint_chain_helper_equals_sequential_application")
+\* the library's measurement helper against the definitions (mean |x|^2, max |x|^2, their ratio), each as tool/definition in ppm
+Near1(p) == p >= 999800 /\ p <= 1000200
+Measure(e) == IF e.raised THEN Chk(FALSE, "measurement_raised") ELSE
+              /\ Chk(Near1(e.mean_ppm), "measured_mean_power_is_mean_of_squared_magnitudes")
+              /\ Chk(Near1(e.peak_ppm), "measured_peak_power_is_max_of_squared_magnitudes")
+              /\ Chk(Near1(e.amp_ppm), "measured_peak_amplitude_is_max_magnitude")
+              /\ Chk(Near1(e.papr_ppm), "measured_papr_is_peak_over_mean")
+              /\ Chk(e.db_centi = e.db_centi_ref \/ e.db_centi = e.db_centi_ref + 1 \/ e.db_centi + 1 = e.db_centi_ref, "measured_papr_db_is_ten_log10")
 Factory(e) == IF e.raised THEN Chk(FALSE, "constraint_raised") ELSE
               /\ Chk(e.power_ppm < 0 \/ (NeverMore(e.power_ppm) /\ EqualWithinTenthPercent(e.power_ppm)), "factory_composite_meets_power_limit")
               /\ Chk(e.peak_ppm < 0 \/ WithinLimit(e.peak_ppm), "factory_composite_meets_peak_limit")
@@ -33,6 +42,7 @@ Next == /\ l <= Len(TLog)
                [] e.ev = "Papr" -> Papr(e)
                [] e.ev = "Composite" -> Composite(e)
                [] e.ev = "Factory" -> Factory(e)
+               [] e.ev = "Measure" -> Measure(e)
                [] OTHER -> Chk(FALSE, "unknown_event")
         /\ l' = l + 1
 Spec == Init /\ [][Next]_l
